@@ -92,7 +92,7 @@ class Client:
         elif not serializer:
             assert parser is not None
             serializer = XmlSerializer(context=parser.context)
-        else:
+        elif not parser:
             assert serializer is not None
             parser = XmlParser(context=serializer.context)
 
